@@ -38,6 +38,7 @@ func TestVerif(t *testing.T) {
 		verifRA(t, r, out, "ra1")
 	case "C03":
 		verifRA(t, r, out, "ra3")
+		verifFloatSeconds(t, r, out)
 	case "C04":
 		verifRA(t, r, out, "ra4")
 	case "C14":
@@ -1628,4 +1629,39 @@ func verifC16Parsed(t *testing.T, r *vfh.Rand, out *vfh.Out) {
 		}
 	}
 	_ = r
+}
+
+// verifFloatSeconds ties the model's exact float64 arithmetic (Spec.C03.floatSeconds, the class
+// predicate of finding K-1) to the real conversion the codec performs, uint32(d.Seconds()):
+// boundary values around every power of two of seconds, just below whole seconds, and random ones.
+//
+//	fs d | uint32(d.Seconds())
+func verifFloatSeconds(t *testing.T, r *vfh.Rand, out *vfh.Out) {
+	emit := func(d time.Duration) {
+		if d < 0 || d >= (1<<32)*time.Second {
+			return
+		}
+		out.Line(fmt.Sprintf("fs %d", int64(d)), fmt.Sprint(uint32(d.Seconds())))
+	}
+	for e := 0; e < 32; e++ {
+		base := time.Duration(1<<uint(e)) * time.Second
+		for _, sec := range []time.Duration{base - time.Second, base, base + time.Second, 3*base/2 + time.Second} {
+			for _, below := range []time.Duration{0, 1, 2, 100, 119, 120, 238, 239, 240, 256, 477, 478, 500, 512, 513, 1000, 500000000} {
+				emit(sec + time.Second - below)
+				emit(sec + below)
+			}
+		}
+	}
+	n := vfh.N(3000, 200000)
+	for i := 0; i < n; i++ {
+		sec := time.Duration(r.Range(0, 1<<32-2)) * time.Second
+		switch r.Intn(3) {
+		case 0:
+			emit(sec + time.Second - time.Duration(r.Range(1, 2000)))
+		case 1:
+			emit(sec + time.Duration(r.Range(0, 999999999)))
+		default:
+			emit(time.Duration(r.Range(0, int64(1<<40))))
+		}
+	}
 }
